@@ -4,6 +4,7 @@
 package sopenv
 
 import (
+	"github.com/sharedcode/sop/infs"
 	"context"
 	"fmt"
 	"math/rand"
@@ -111,8 +112,26 @@ func copyTree(src, dst string) error {
 // MaxTime is the commit budget / lock TTL given to transactions created through Opts (0 = sop default, 15 min).
 var MaxTime time.Duration
 
+// Replicated switches every transaction made through NewTransaction to active/passive replication (folders
+// Dir/a and Dir/p) with erasure-coded blobs (1 data + 1 parity shard on Dir/e1 and Dir/e2).
+var Replicated bool
+
+// NewTransaction creates a transaction for the scenario folder(s), replicated or not.
+func NewTransaction(ctx context.Context, mode sop.TransactionMode) (sop.Transaction, error) {
+	if Replicated {
+		return infs.NewTransactionWithReplication(ctx, Opts(mode))
+	}
+	return infs.NewTransaction(ctx, Opts(mode))
+}
+
 // Opts returns transaction options for the scenario folder.
 func Opts(mode sop.TransactionMode) sop.TransactionOptions {
+	if Replicated {
+		ec := map[string]sop.ErasureCodingConfig{"": {DataShardsCount: 1, ParityShardsCount: 1,
+			BaseFolderPathsAcrossDrives: []string{filepath.Join(Dir, "e1"), filepath.Join(Dir, "e2")}}}
+		return sop.TransactionOptions{Mode: mode, StoresFolders: []string{filepath.Join(Dir, "a"), filepath.Join(Dir, "p")}, ErasureConfig: ec,
+			CacheType: sop.InMemory, MaxTime: MaxTime, RegistryHashModValue: fs.MinimumModValue}
+	}
 	return sop.TransactionOptions{Mode: mode, StoresFolders: []string{Dir}, CacheType: sop.InMemory, MaxTime: MaxTime, RegistryHashModValue: fs.MinimumModValue}
 }
 
